@@ -401,6 +401,15 @@ func c13Gen(rt *rapid.T) c13Prog {
 			p.Ops = append(p.Ops, wOp{K: "sub", S: 2, T: "g0"}, wOp{K: "sub", S: 2, T: "me"}, wOp{K: "leave", S: 2, T: "g0", F: true}, wOp{K: "tick", N: 200000},
 				wOp{K: "pub", S: 1, T: "g0"}, wOp{K: "get", S: 2, T: "me", A: c13Pick(rt, []string{"sub", "sub", "desc sub"}, "cachewhat"), H: map[string]any{"ims": "recent"}})
 		}
+		if c13Maybe(rt, 15) && len(p.Sess) > 2 {
+			// two connections ask for a topic which is not loaded, one request arriving while the topic is
+			// being read from a store which takes its time
+			if len(p.Cfg.Lat) == 0 {
+				p.Cfg.Lat = []int{c13Pick(rt, []int{1, 3, 7}, "lat13")}
+			}
+			p.Ops = append(p.Ops, wOp{K: "sub", S: 2, T: "g0"}, wOp{K: "leave", S: 1, T: "g0"}, wOp{K: "leave", S: 2, T: "g0"}, wOp{K: "tick", N: 5500},
+				wOp{K: "par", Par: []wOp{{K: "sub", S: 1, T: "g0", L: gInt(rt, 0, 3, "y1")}, {K: "sub", S: 2, T: "g0", L: gInt(rt, 0, 3, "y2")}}}, wOp{K: "pub", S: 1, T: "g0"})
+		}
 		if c13Maybe(rt, 20) {
 			p.Ops = append(p.Ops, wOp{K: "leave", S: 1, T: "me"}, wOp{K: "sub", S: 1, T: "me", B: c13Pick(rt, []string{"cred", "desc sub cred tags", "data del"}, "getwhat")})
 		}
@@ -516,12 +525,26 @@ func (o *c13Obs) Before(w *wWorld, op *wOp) {
 }
 
 func (o *c13Obs) After(w *wWorld, st *wStep) *kit.Viol {
+	if st.Op.K == "par" {
+		// requests of several connections in flight at once: each one answered, a {sub} exactly once
+		for _, sub := range st.Sub {
+			sub.Died = st.Died
+			if v := o.After(w, sub); v != nil {
+				return v
+			}
+		}
+		return nil
+	}
 	if !st.Skipped && st.ReqID != "" && (st.Op.K == "sub" || st.Op.K == "leave" || st.Op.K == "pub" || st.Op.K == "get" || st.Op.K == "set" || st.Op.K == "del") {
 		// the well-formed requests of the prologue: answered like any other
 		answered := false
+		ctrls := 0
 		for _, f := range st.Frames[st.Sess] {
 			if (f.Ctrl != nil && f.Ctrl.Id == st.ReqID) || (f.Meta != nil && f.Meta.Id == st.ReqID) {
 				answered = true
+			}
+			if f.Ctrl != nil && f.Ctrl.Id == st.ReqID {
+				ctrls++
 			}
 		}
 		for _, d := range st.Died {
@@ -531,6 +554,9 @@ func (o *c13Obs) After(w *wWorld, st *wStep) *kit.Viol {
 		}
 		if !answered {
 			return kit.V("unanswered:"+st.Op.K+":"+st.Op.A, "request got no reply echoing its id %q at quiescence: %s frames=%s", st.ReqID, st.Req, wFramesStr(st.Frames[st.Sess]))
+		}
+		if st.Op.K == "sub" && st.Op.B == "" && st.Op.G == nil && st.Op.H == nil && ctrls > 1 {
+			return kit.V("answered-twice:sub", "request %s was answered %d times: %s", st.Req, ctrls, wFramesStr(st.Frames[st.Sess]))
 		}
 	}
 	if st.Op.K != "raw" || st.Skipped {
